@@ -207,7 +207,8 @@ PREDEFS = ["$WS", "$ID", "$NUMBER", "$STRING", "$FOO"]
 
 def render(rng, toks, seps=(" ", " ", " ", "\n", "\t", "  ", " /* c */ ", " // c\n", "\n\n", " ", "\n",
                             # comments that end in runs of asterisks, hold asterisks and slashes, span lines
-                            " /** d **/ ", "/****/", " /* a * b / c */ ", "/***/", " /*** x\n * y ****/\n", " /**/ ", " // * / */\n")):
+                            " /** d **/ ", "/****/", " /* a * b / c */ ", "/***/", " /*** x\n * y ****/\n", " /**/ ", " // * / */\n",
+                            "/*/*/", " /*/ c */ ", "/*/ b /*/")):
     """token kinds -> source text with random lexemes and separators; returns (text, lexemes)"""
     parts, lex = [], []
     for k in toks:
